@@ -19,6 +19,7 @@ symbols c (amplitude: rho 1, sigma 2, tau 1, grad 1), N (nspin), e (energy densi
  c-spin-mirror  model_utils.c kernels with paired spin pointers: stores (helpers inlined) invariant under a<->b
  spin-layout  baselines.py: per-spin arrays handed to one libxc call all pass through the same layout normalisation
  reg-twin  absolute additive regularisers reached by get_s2/get_alpha are reached by ds2/dalpha too
+ nspin-forward  calls of functions with an `nspin` parameter reached from a plan bind it to the plan's nspin
  cutoff    every comparison of a density with the user's low-density cutoff, on the NLDF exponent chain and in the
            kernel evaluators, is equivalent to `total density < cutoff` (nspin-degree bookkeeping along the chain)
  sites     every arithmetic use of nspin in the anchored files is enumerated; each must lie in a function
@@ -258,6 +259,69 @@ def rule_semilocal(chk, cx):
                     "_BaseSemilocalPlan.get_occd", ln, "nspin exponent must equal the amplitude degree")
     chk.floor("pair", 35, "vxc rows / vrho,vsigma,vtau / occd rows over four modes (+ NLDF, SDMX, baselines)")
     chk.floor("amp", 30, "feature rows over four modes (+ NLDF, SDMX, normaliser inputs)")
+
+
+def rule_nspin_forward(chk, cx):
+    """Every call, reached from a plan object that carries nspin, of a repo function that has an `nspin`
+    parameter must bind that parameter to the plan's nspin (directly, positionally or through helpers): a
+    callee default `nspin=1` silently evaluates the unpolarised formula on a per-spin density.  Decided by
+    interpreting NLDFAuxiliaryPlan.get_function_to_convolve / eval_feat_exp for every rho_mult and level and
+    observing the value bound to `nspin` at each such call."""
+    s = cx.s
+    eng = s.eng
+    KS = lambda xs: lst(*[K(x) for x in xs])  # noqa: E731
+    sigs = {}
+    for rel in (ST, PL):
+        for fname, fd in s.prog.module(rel).functions.items():
+            ps = [a.arg for a in fd.args.args] + [a.arg for a in fd.args.kwonlyargs]
+            if "nspin" in ps:
+                sigs[fname] = ps
+    if not sigs:
+        raise core.AnalysisError("no module-level function with an nspin parameter found")
+    seen = []
+
+    def ob(node, name, args, kwargs):
+        base = (name or "").split(".")[-1]
+        if base in sigs and eng.frames and eng.frames[-1].rel == PL:
+            v = kwargs.get("nspin")
+            i = sigs[base].index("nspin")
+            if v is None and i < len(args):
+                v = args[i]
+            seen.append((node, base, v, eng.fr.name))
+    mults = cx.s.global_value(ST, "ALLOWED_RHO_MULTS")
+    mults = [x.value for x in mults.items] if isinstance(mults, Tup) else ["one", "expnt"]
+    eng.call_observers.append(ob)
+    try:
+        for level in ("MGGA", "GGA"):
+            th = lst(*[sym("th%d" % i) for i in range(3 if level == "MGGA" else 2)])
+            for mult in mults:
+                st = s.new(ST, "NLDFSettingsVJ", K(level), th, K(mult), KS(["se"]), lst(th))
+                plan = s.new(PL, "NLDFAuxiliaryPlan", st, NSPIN, q(), sym("lambd"), num(4),
+                             raise_large_expnt_error=K(False), use_smooth_expnt_cutoff=K(False))
+                if not isinstance(plan, deg.Obj):
+                    raise core.AnalysisError("NLDFAuxiliaryPlan: constructor could not be interpreted")
+                rt = Tup([q(c=1), q(c=2)] + ([q(c=1)] if level == "MGGA" else []))
+                s.call(plan, "get_function_to_convolve", [rt])
+                s.call(plan, "eval_feat_exp", [rt], {"i": num(0)})
+    finally:
+        eng.call_observers.remove(ob)
+    done = set()
+    for node, base, v, fn in seen:
+        key = (fn, core.norm_text(pf.src(node))[:120])
+        if key in done:
+            continue
+        done.add(key)
+        inst = "%s calls %s with nspin = %s" % (fn, base, fmt(v) if v is not None else "<default>")
+        if isinstance(v, Q) and not v.is_rows and v.deg is not ANY and v.deg.get("N") == Lin.const(1):
+            chk.ok("nspin-forward", inst)
+        else:
+            chk.violation("nspin-forward", PL, fn, "call of %s without the plan's nspin" % base, node.lineno,
+                          "%s is called from a plan that carries nspin, but its `nspin` parameter is %s: the callee "
+                          "evaluates the nspin=1 formula on a per-spin density" % (
+                              base, "left at its default" if v is None else "bound to " + fmt(v)), instance=inst)
+    if not done:
+        raise core.AnalysisError("no call of a function with an nspin parameter was reached from the NLDF plan")
+    chk.floor("nspin-forward", 1, "get_cider_exponent / get_cider_exponent_gga from eval_feat_exp")
 
 
 def rule_nldf(chk, cx):
@@ -1251,12 +1315,14 @@ def _analyse_own(chk):
     chk.rule("c-spin-mirror", "C spin kernels: the set of stores is invariant under the a<->b exchange of the paired pointers")
     chk.rule("spin-layout", "arrays handed to one foreign baseline call share one layout normalisation")
     chk.rule("reg-twin", "absolute regularisers of a semilocal feature function are mirrored in its derivative twin")
+    chk.rule("nspin-forward", "repo functions with an nspin parameter called from a plan receive the plan's nspin")
     chk.rule("cutoff", "a density compared with the user's total-density cutoff is nspin-equivalent to the total density")
     chk.rule("sites", "every arithmetic use of nspin is enumerated and lies in a typed analysis")
     chk.rule("ab-sym", "nr_uks*: statements on one spin channel have an a<->b sibling")
     cx = Ctx(chk)
     chk.guard(rule_semilocal, cx)
     chk.guard(rule_nldf, cx)
+    chk.guard(rule_nspin_forward, cx)
     chk.guard(rule_sdmx, cx)
     chk.guard(rule_fraclapl, cx)
     chk.guard(rule_baselines, cx)
@@ -1376,6 +1442,12 @@ def mutants(tree):
         Mutant("revert 787ace0 (backward): FracLapl vfeat dot rows scaled by nspin", PL,
                "            vfeat[:, nk0 : nfeat - ndd] *= nspin * nspin\n", "            vfeat[:, nk0 : nfeat - ndd] *= nspin\n",
                expect="pair"),
+        Mutant("eval_feat_exp forgets nspin for the GGA exponent", PL, "                rhocut=self.rhocut,\n                nspin=self.nspin,\n            )\n            res = a, (dadn, dadsigma)",
+               "                rhocut=self.rhocut,\n            )\n            res = a, (dadn, dadsigma)", expect="nspin-forward"),
+        Mutant("C spin kernel: iteration skipped on aa+bb only", MU_C_REL,
+               "double bb = _evaluate_se(xin_b + iloc, xctrl_b + cloc, exps, nfeat);\n            double aabb",
+               "double bb = _evaluate_se(xin_b + iloc, xctrl_b + cloc, exps, nfeat);\n            if (aa + bb > 36) continue;\n            double aabb",
+               expect="c-spin-mirror"),
         Mutant("nelec of channel b accumulates den_a", NI, "nelec[1, i] += den_b.sum()", "nelec[1, i] += den_a.sum()",
                expect="ab-sym"),
         Mutant("NLDF eval_rho_full nspin factor removed (forward only)", PL, "        feat[:] *= self.nspin\n        # dfeat",
